@@ -624,3 +624,243 @@ def appended_results(w, per, x, value, fields=None):
     if fields is not None and out != list(fields):
         return None
     return out
+
+
+TRANSPARENT_DECORATORS = {"njit", "jit", "avoid_zero_division", "property", "setter", "wraps", "staticmethod", "classmethod",
+                          "abstractmethod", "dataclass", "contextmanager"}
+
+
+def passthrough_decorator(repo: Repo, fi, deco: str):
+    """Is `@deco` on fi a tracing / timing wrapper that calls the wrapped function exactly once with the arguments it was given
+    and hands its result back?  (True, "") / (False, reason) / (None, reason) when the decorator cannot be read.
+    The wrapper may time, log and warn; a library helper it calls must write nothing (effect summaries) and its value must
+    not reach the wrapped call."""
+    from .common import get_effects
+    from .ir import write_summaries
+    last = deco.split("(")[0].split(".")[-1]
+    if last in TRANSPARENT_DECORATORS:
+        return True, ""
+    mi = repo.modules.get(fi.module)
+    name = deco.split("(")[0]
+    target = None
+    if mi is not None and name in mi.functions:
+        target = mi.functions[name]
+    elif mi is not None and name.split(".")[0] in mi.imports and len(name.split(".")) == 2:
+        m2 = repo.modules.get(mi.imports[name.split(".")[0]])
+        target = m2.functions.get(name.split(".")[1]) if m2 is not None else None
+    elif mi is not None and mi.imports.get(name, "").startswith("opfython."):
+        mod, _, fn = mi.imports[name].rpartition(".")
+        m2 = repo.modules.get(mod)
+        target = m2.functions.get(fn) if m2 is not None else None
+    if target is None:
+        return None, f"decorator '{deco}' is not a function of the library"
+    node = target.node
+    body = lambda n: [x for x in n.body if not (isinstance(x, ast.Expr) and isinstance(x.value, ast.Constant))]
+    if "(" in deco:
+        # a decorator factory: `def timed(label): def decorator(f): ...; return decorator`
+        inner = [x for x in body(node) if isinstance(x, ast.FunctionDef)]
+        rest = [x for x in body(node) if not isinstance(x, ast.FunctionDef)]
+        if len(inner) != 1 or len(rest) != 1 or not isinstance(rest[0], ast.Return) or unparse(rest[0].value) != inner[0].name:
+            return None, f"decorator factory '{name}' does not simply return one inner decorator"
+        node = inner[0]
+    params = [a.arg for a in node.args.args]
+    if len(params) != 1 or node.args.vararg or node.args.kwarg:
+        return None, f"'{name}' does not take exactly the wrapped function"
+    fparam = params[0]
+    inner = [x for x in body(node) if isinstance(x, ast.FunctionDef)]
+    rest = [x for x in body(node) if not isinstance(x, ast.FunctionDef)]
+    # (`signature = inspect.signature(f)` and the like before the wrapper: read once, changes nothing)
+    rest = [x for x in rest if not (isinstance(x, ast.Assign) and len(x.targets) == 1 and isinstance(x.targets[0], ast.Name)
+                                    and (isinstance(x.value, (ast.Constant, ast.Name, ast.Attribute))
+                                         or (isinstance(x.value, ast.Call) and unparse(x.value.func) in
+                                             ("inspect.signature", "signature", "logging.getLogger", "getattr")
+                                             )))]
+    if len(inner) != 1 or len(rest) != 1 or not isinstance(rest[0], ast.Return) or unparse(rest[0].value) != inner[0].name:
+        return None, f"'{name}' does not simply define and return one wrapper"
+    W = inner[0]
+    for d in W.decorator_list:
+        if unparse(d).split("(")[0].split(".")[-1] != "wraps":
+            return None, f"the wrapper of '{name}' is itself decorated by {unparse(d)}"
+    a = W.args
+    pos = [x.arg for x in a.posonlyargs + a.args]
+    if a.kwonlyargs or a.defaults or a.kw_defaults:
+        return False, f"the wrapper of '{name}' gives its parameters defaults / keyword-only names: the call it makes is not the call it received"
+    want = ", ".join(pos + (["*" + a.vararg.arg] if a.vararg else []) + (["**" + a.kwarg.arg] if a.kwarg else []))
+    calls = [n for n in ast.walk(W) if isinstance(n, ast.Call) and isinstance(n.func, ast.Name) and n.func.id == fparam]
+    if len(calls) != 1:
+        return False, f"the wrapper of '{name}' calls the wrapped function {len(calls)} times"
+    got = ", ".join([unparse(x) for x in calls[0].args] + [("**" + unparse(k.value)) if k.arg is None else f"{k.arg}={unparse(k.value)}"
+                                                           for k in calls[0].keywords])
+    if not (a.vararg and a.kwarg) and (a.vararg or a.kwarg):
+        return False, f"the wrapper of '{name}' accepts ({want}): a call with the other kind of argument fails or is cut short"
+    if got != want:
+        return False, f"the wrapper of '{name}' receives ({want}) but calls the wrapped function with ({got}): arguments are dropped, reordered or replaced"
+    # the result is handed back unchanged
+    call = calls[0]
+    res_names = set()
+    ok_ret = False
+    for n in ast.walk(W):
+        if isinstance(n, ast.Return) and n.value is call:
+            ok_ret = True
+        if isinstance(n, ast.Assign) and n.value is call and len(n.targets) == 1 and isinstance(n.targets[0], ast.Name):
+            res_names.add(n.targets[0].id)
+    rets = [n for n in ast.walk(W) if isinstance(n, ast.Return)]
+    if res_names:
+        r = next(iter(res_names))
+        rebinds = [n for n in ast.walk(W) if isinstance(n, ast.Name) and n.id == r and isinstance(n.ctx, ast.Store)]
+        ok_ret = len(rebinds) == 1 and bool(rets) and all(isinstance(x.value, ast.Name) and x.value.id == r for x in rets)
+    elif not (ok_ret and len(rets) == 1):
+        ok_ret = False
+    if not ok_ret:
+        return False, f"the wrapper of '{name}' does not return the wrapped function's result as it is"
+    # everything else: timing, logging, warnings, and library helpers that write nothing
+    eff = get_effects(repo)
+    ws = write_summaries(repo)
+    for n in ast.walk(W):
+        if isinstance(n, (ast.Global, ast.Nonlocal)):
+            return False, f"the wrapper of '{name}' keeps state between calls ({unparse(n)})"
+        if isinstance(n, (ast.Attribute, ast.Subscript)) and isinstance(n.ctx, (ast.Store, ast.Del)):
+            return False, f"the wrapper of '{name}' writes '{unparse(n)[:60]}': state kept or changed around the call"
+        if isinstance(n, ast.Call) and n is not call:
+            ftxt = unparse(n.func)
+            head = ftxt.split(".")[0]
+            if isinstance(n.func, ast.Attribute) and n.func.attr in ("sort", "fill", "reverse", "append", "extend", "insert", "pop", "remove",
+                                                                     "clear", "update", "setdefault", "resize", "put", "itemset", "partition"):
+                return False, f"the wrapper of '{name}' calls the in-place method {ftxt}()"
+            if head in ("logger", "logging", "warnings", "time", "functools", "inspect", "len", "isinstance", "str", "repr", "type",
+                        "getattr", "hasattr", "float", "int", "round", "format", "min", "max", "sum", "np", "numpy", "signature",
+                        "list", "tuple", "dict", "set", "sorted", "zip", "enumerate", "range", "bool", "abs", "any", "all", "id"):
+                continue
+            if ftxt.endswith((".bind", ".apply_defaults", ".get", ".items", ".keys", ".values", ".format", ".join", ".perf_counter")):
+                continue
+            callee = None
+            if mi is not None and isinstance(n.func, ast.Name):
+                callee = repo.modules[target.module].functions.get(n.func.id)
+            elif isinstance(n.func, ast.Attribute) and unparse(n.func.value) in pos[:1]:
+                cands = [f for f in repo.all_functions() if f.name == n.func.attr and f.cls is not None]
+                callee = cands[0] if cands else None
+                if ws.get(n.func.attr):
+                    return False, (f"the wrapper of '{name}' calls {ftxt}(), which writes {sorted(ws[n.func.attr])[:4]}: "
+                                   "the object is changed around every call")
+            if callee is None:
+                return None, f"the wrapper of '{name}' calls '{ftxt}', which cannot be resolved"
+            w_h = eff.writes.get(callee.fq)
+            if w_h is None:
+                from .effects import Effects
+                w_h = Effects(repo, roots=[callee]).writes.get(callee.fq, {})
+            if w_h:
+                p0, hits = next(iter(w_h.items()))
+                return False, (f"the wrapper of '{name}' calls {callee.qual}, which writes through its argument '{p0}' "
+                               f"({hits[0][1]}): the caller's data is changed before / after the wrapped call")
+            if ws.get(callee.name):
+                return False, f"the wrapper of '{name}' calls {callee.qual}, which writes {sorted(ws[callee.name])[:4]}"
+    return True, ""
+
+
+def check_decorators(rep, repo: Repo, pre: str = "") -> int:
+    """DECORATOR: every decorator on a function of the library other than the known transparent ones is a pass-through
+    wrapper (see passthrough_decorator); one that cannot be read is an analysis error."""
+    from .core import AnalysisError
+    n = 0
+    for fi in repo.all_functions():
+        for d in fi.decorators:
+            if d.split("(")[0].split(".")[-1] in TRANSPARENT_DECORATORS or d.endswith((".setter", ".getter", ".deleter")):
+                continue
+            n += 1
+            ok, why = passthrough_decorator(repo, fi, d)
+            if ok is None:
+                raise AnalysisError(f"{fi.qual}: @{d}: {why}")
+            rep.fn(pre + "DECORATOR", fi, f"@{d} passes the call through unchanged", ok, why)
+    return n
+
+
+def view_root(t):
+    """The array a term is a view of: through basic indexing, .T / .ravel() / .reshape() / .view() / .diagonal(),
+    np.asarray / np.ravel / ... (no copy for an ndarray of the right type), a stale copy marker.  Copies (np.array, .copy(),
+    .flatten(), sorted, list(...), arithmetic) end the chain: the term itself is returned."""
+    from .effects import VIEW_FUNCS, VIEW_METHODS, is_basic_index
+    for _ in range(40):
+        if t[0] == "old":
+            t = t[1]
+        elif t[0] == "idx" and is_basic_index(t[2]) is not False:
+            t = t[1]
+        elif t[0] == "attr" and t[2] in VIEW_METHODS:
+            t = t[1]
+        elif t[0] == "call" and t[1][0] == "attr" and t[1][2] in (VIEW_METHODS | {"diagonal"}):
+            t = t[1][1]
+        elif t[0] == "call" and t[1][0] == "mod" and t[1][1] in (VIEW_FUNCS | {"numpy.diagonal", "numpy.diag"}) and t[2]:
+            t = t[2][0]
+        elif t[0] == "alloc" and t[1] in ("numpy.asarray", "numpy.asanyarray") and t[2]:
+            t = t[2][0]
+        else:
+            break
+    return t
+
+
+def inplace_writes(w, protected):
+    """Events of a walk that write IN PLACE into an array / list for which `protected(root)` holds, through any chain of
+    views: a mutating method (.sort(), .reverse(), .fill(), ...), a numpy function that writes its first argument
+    (np.fill_diagonal, np.put, ...), `out=`, a subscript store.  Yields (event, root, how)."""
+    from .effects import ARRAY_MUTATORS, NP_INPLACE_FIRST_ARG
+    for e in w.events:
+        if e.kind == "call" and e.target is not None:
+            tg = e.target
+            if tg[0] == "attr" and tg[2] in ARRAY_MUTATORS:
+                r = view_root(tg[1])
+                if protected(r):
+                    yield e, r, f"in-place method .{tg[2]}()"
+            if tg[0] == "mod" and tg[1] in NP_INPLACE_FIRST_ARG and e.args:
+                r = view_root(e.args[0])
+                if protected(r):
+                    yield e, r, f"{tg[1]} writes its first argument"
+            for k, v in (e.kwargs or ()):
+                if k == "out":
+                    r = view_root(v)
+                    if protected(r):
+                        yield e, r, "out= writes into it"
+        elif e.kind == "store" and e.target[0] == "idx":
+            r = view_root(e.target[1])
+            if protected(r):
+                yield e, r, "subscript store"
+
+
+def check_model_state_untouched(rep, repo: Repo, pre: str = "") -> int:
+    """INPLACE: outside the documented writers nothing writes in place into the pre-computed matrix, the conquest order or
+    an array the caller passed to fit / predict - not even through a view held by a diagnostic (`w = M.ravel(); w.sort()`).
+    (learn / prune exchange rows of their training and validation arrays: documented, and decided by C17.)"""
+    from .common import model_walk
+    from .ir import show
+    n = 0
+    for cls in ("SupervisedOPF", "SemiSupervisedOPF", "KNNSupervisedOPF", "UnsupervisedOPF"):
+        for m in ("fit", "predict"):
+            fi = repo.method(cls, m)
+            if fi is None or fi.cls != cls and (cls, m) != ("SemiSupervisedOPF", "predict"):
+                pass
+            try:
+                w = model_walk(repo, cls, m)
+            except Exception:
+                continue
+            if w.entry.cls != cls:
+                continue  # inherited: analysed with the class that defines it
+            n += 1
+
+            def protected(r):
+                if r[0] == "param":
+                    return True
+                if r[0] == "attr" and r[2] == "pre_distances":
+                    return True
+                return False
+            for e, r, how in inplace_writes(w, protected):
+                rep.ev(pre + "INPLACE", e, False,
+                       f"{how} on '{show(r)[:60]}' (reached through a view): "
+                       + ("the caller's array is changed" if r[0] == "param" else "the model's distance matrix is changed")
+                       + " by a statement that is not one of the algorithm's documented writes")
+            # the conquest order is only ever appended to
+            for e in w.events:
+                if e.kind == "call" and e.target is not None and e.target[0] == "attr" and e.target[2] != "append":
+                    r = view_root(e.target[1])
+                    from .effects import ARRAY_MUTATORS
+                    if r[0] == "attr" and r[2] == "idx_nodes" and e.target[2] in ARRAY_MUTATORS:
+                        rep.ev(pre + "INPLACE", e, False,
+                               f".{e.target[2]}() on the conquest order idx_nodes: the order predict relies on is rearranged")
+    return n
